@@ -58,6 +58,8 @@ def generate(seed, tier):
     iris = sorted({ns + loc for ns in nss for loc in g.sample(LOCALS, 3)} | {nss[0] + "1n", nss[-1] + "2024report"})[:20]
     # namespaces that only the *strict* split of such IRIs produces (local name must start with a letter): bindable too
     nss = nss + [nss[0] + "1", nss[-1] + "2024"]
+    if g.chance(0.15):
+        nss.append("")  # the empty namespace (what xmlns="" in RDF/XML binds)
     nh = g.randint(1, 3)
     cfg = {"store": g.choice(["memory", "memory", "simple"]), "handles": [g.choice(["none", "core", "rdflib", "core"]) for _ in range(nh)], "iris": iris, "nss": nss}
     w = {"bind": g.choice([2, 4, 6]), "qname": g.choice([2, 4, 8]), "parse": g.choice([0, 1]), "serialize": g.choice([0, 1]), "expand": 1, "reset": g.choice([0, 0, 1]), "storebind": g.choice([0, 0, 1]), "peek": g.choice([0, 1, 2])}
